@@ -682,10 +682,14 @@ def gen_escape(r, abi, invariant):
             inst = cfi.InstNop()
         elif kind == "def_cfa_expression":
             inst = cfi.InstDefCFAExpression(gen_expr(r, abi, invariant))
-        elif kind == "expression":
-            inst = cfi.InstExpression(_reg(r), gen_expr(r, abi, invariant))
         else:
-            inst = cfi.InstValExpression(_reg(r), gen_expr(r, abi, invariant))
+            # the instruction header is encoded here, independently of the
+            # library (opcode, ULEB128 register as a compiler emits it); only
+            # the DW_FORM_block with the expression comes from its encoders
+            block = cfi.InstDefCFAExpression(gen_expr(r, abi, invariant)).encode(abi["order"], abi["ptr"])[1:]
+            reg = r.choice([64, 72, 79, 100, 127]) if r.random() < 0.15 else _reg(r)
+            payload += bytes([0x10 if kind == "expression" else 0x16] + _uleb_bytes(reg)) + bytes(block)
+            continue
         payload += inst.encode(abi["order"], abi["ptr"])
     return list(payload)
 
